@@ -49,7 +49,10 @@ def add_phase_info(gaf_path, tsv_path, out_path):
             tmp = Node(line_elements[3], line_elements[1], line_elements[2])
             phase[line_elements[0]] = tmp
 
-    gaf_out = open(out_path, "w")
+    if out_path is sys.stdout:
+        gaf_out = sys.stdout
+    else:
+        gaf_out = open(out_path, "w")
 
     line_count = 0
     missing_in_tsv = 0
@@ -107,7 +110,8 @@ def add_phase_info(gaf_path, tsv_path, out_path):
     )
     gaf_file.close()
     tsv_file.close()
-    gaf_out.close()
+    if gaf_out is not sys.stdout:
+        gaf_out.close()
 
 
 # fmt: off
